@@ -301,6 +301,70 @@ def pfe_statement_rule(F, R, tier):
          if not bad and checked > 0 else (bad[0] if bad else 'nothing analysed'), v.file)
 
 
+def vsct_rule(F, R):
+    """|Vsct| <= (N-1)/sqrt(N) is Samuelson's inequality for a member of a sample against the sample mean and the (n-1) sample
+    standard deviation. It holds by construction when: the embedded view is the crate's WelfordOnline (whose mean / m2 / count
+    discipline is verified under C02), the value handed out is exactly (last - mean) / std with `mean` and `std` read from that
+    embedded view's own getters, and `last` is the value fed to it in the same update (hence a member of its window)."""
+    from .terms import map_term
+    views = view_by_name(F)
+    v = views.get('Vsct')
+    w = views.get('WelfordOnline')
+    if v is None or w is None:
+        return
+    m = model(F, v)
+    kids = [f for f in v.children_fields() if f.child_adt == w.adt_path]
+    if len(kids) != 1:
+        R.ob('RG-vsct', 'Vsct', False, 'Vsct does not embed exactly one WelfordOnline', v.file)
+        return
+    pre = kids[0].name + '.'
+    mw = model(F, w)
+
+    def renamed(t):
+        return map_term(t, lambda x: ('in', pre + x[1]) if (x[0] == 'in') else x)
+    # std as WelfordOnline::last() reports it, mean as its `mean` cell (identified by W5-mean-history's role: the cell that is the window mean)
+    std_ref = None
+    for conds, leaf in cases(renamed(mw.last_ret)):
+        if leaf[0] == 'some' and any(x[0] == 'op' and x[1] == 'sqrt' for x in subterms(leaf)):
+            std_ref = leaf[1]
+    wl_ret = renamed(mw.last_ret)
+    ok = False
+    detail = 'last() is not (last - mean)/std of the embedded WelfordOnline'
+    # the register that takes the value fed to the embedded view in the same update
+    # (the embedded view is inlined: what it is fed is what is pushed onto its window queue)
+    pushed = {x[2] for c, t in m.up_fields.items() if c.startswith(pre) for x in subterms(t) if x[0] == 'push_back'}
+    fed = [p_ for p_ in pushed if p_[0] == 'child']
+    regs = [c for c, t in m.up_fields.items() if not c.startswith(pre) and len(fed) == 1 and any(lf == fed[0] for _, lf in cases(t))]
+    for conds, leaf in cases(m.last_ret):
+        if leaf[0] != 'some':
+            continue
+        x = leaf[1]
+        if x[0] == 'op' and x[1] == 'div':
+            num, den = x[2]
+            num_ok = num[0] == 'op' and num[1] == 'sub' and num[2][0][0] == 'in' and num[2][0][1] in regs and num[2][1][0] == 'in' \
+                and num[2][1][1].startswith(pre) and num[2][1][1][len(pre):] in mw.touched
+            # the divisor is the payload of the embedded view's last(): same term as WelfordOnline::last() computes
+            from .vg import payload
+            try:
+                den_leaves = [lf for _, lf in cases(den)]
+            except OverflowError:
+                den_leaves = [None]
+            den_ok = den == payload(wl_ret) or (std_ref is not None and std_ref in den_leaves and all(lf in (std_ref, lit(0.0)) for lf in den_leaves))
+            if num_ok and den_ok:
+                ok = True
+                detail = 'reported value = (%s − %s) / std of the embedded WelfordOnline, with %s the value fed to it in the same update: Samuelson\'s bound (N−1)/sqrt(N) holds by construction' % (
+                    num[2][0][1], num[2][1][1], num[2][0][1])
+            else:
+                ok = False
+                detail = 'the reported ratio %s is not (value fed in this update − embedded mean) / embedded sample standard deviation' % tstr(x)[:80]
+                break
+        elif x != lit(0.0) and any(y[0] == 'in' for y in subterms(x)):
+            ok = False
+            detail = 'reports %s' % tstr(x)[:60]
+            break
+    R.ob('RG-vsct', 'Vsct', ok, detail, v.file)
+
+
 def run_c07(F, R, tier):
     R.trust('rustc front end; sfa/vg.py; sfa/fsign.py library facts (tanh in [-1,1], sqrt >= 0, x/(x+y) in [0,1] for x,y >= 0, clamp)')
     R.assume('finite inputs; bounds hold in real arithmetic by construction; "a few ulps" is not decided')
@@ -311,6 +375,12 @@ def run_c07(F, R, tier):
     output_range(F, R, 'Rsi', 0.0, 100.0, 'RG-out')
     state_range(F, R, 'HLNormalizer', -1.0, 1.0, 'RG-state')
     clip_rule(F, R)
+    vsct_rule(F, R)
+    # (the Welford discipline the Vsct bound rests on)
+    from .e_window import check_welford, check_welford_cross, welford_mean_history
+    check_welford(F, R, 'WelfordOnline')
+    check_welford_cross(F, R, 'WelfordOnline')
+    welford_mean_history(F, R, 'WelfordOnline')
     # newest value <= Max, >= Min: the stored extremum always covers the newest value (X2) and is refreshed when the old one leaves (X1)
     from .e_window import check_extrema
     check_extrema(F, R, {'Min': 1, 'Max': 1, 'HLNormalizer': 2})   # HLNormalizer: justifies min <= last <= max used by RG-state
@@ -337,5 +407,5 @@ def run_c07(F, R, tier):
     pfe_rule(F, R, tier)
     R.floor('RG-out', 5)
     R.floor('RG-clip', 2)
-    R.decline('MyRSI, CTI, BinaryEntropy, Vsct and Drawdown < 1 (and the f64 half of the Min <= Sma/Alma <= Max and CenterOfGravity bounds) rest on non-negativity '
+    R.decline('MyRSI, CTI, BinaryEntropy and Drawdown < 1 (and the f64 half of the Min <= Sma/Alma <= Max and CenterOfGravity bounds) rest on non-negativity '
               'of running differences of sums or on "a few ulps": value/rounding properties that no domain here can bound — declined')
